@@ -30,6 +30,7 @@ def judge_client(meta, ev, st):
     ccb, ecb, other = {}, {}, {}
     cancel_b, cancel_e = {}, {}
     free_b = free_e = None
+    td_free_e = None
     stop_at = None
     teardown = None
     breaks = []            # indices of tick/drained events (a callback chain never spans them)
@@ -51,6 +52,11 @@ def judge_client(meta, ev, st):
             cancel_b[int(e[1])] = i
         elif t == "cancel" and e[2] == "end":
             cancel_e[int(e[1])] = i
+        elif t == "freecon" and len(e) > 3 and e[3] == "teardown":
+            # the harness's own end-of-case cleanup is not a user action: a request still pending at that point was never
+            # completed (lead fix after seeded defect C27-1: such requests used to be excused as "freed with the connection")
+            if e[2] == "end":
+                td_free_e = i
         elif t == "freecon" and e[2] == "begin" and free_b is None:
             free_b = i
         elif t == "freecon" and e[2] == "end" and free_e is None:
@@ -113,7 +119,14 @@ def judge_client(meta, ev, st):
             st["make_request_failed"] = st.get("make_request_failed", 0) + 1
             continue
         if not cc:
-            if blocked:
+            # witness class of a deviation known in the tree: with EVHTTP_CON_READ_ON_WRITE_ERROR the EOF that arrives while a
+            # partial response is buffered only schedules a deferred re-parse; the incomplete message is then waited for forever
+            # (a request queued behind the hung one shares its fate, hence any peer end in the case counts)
+            peer_ended = any(e[0] == "pact" and e[-1] in ("close", "reset", "shutdown", "shutwr") for i, e in enumerate(ev))
+            if meta.get("rowe") and peer_ended and blocked:
+                out.append((_k("request-never-completed:eof-with-partial-response-under-READ_ON_WRITE_ERROR"),
+                            "%s: peer ended the connection with a partial response buffered; no completion callback" % desc))
+            elif blocked:
                 out.append((_k("request-never-completed"), "%s: no completion callback and the loop has nothing left to wait for" % desc))
             elif limit_hit:
                 out.append((_k("not-settled-after-40-timer-steps"), "%s: still pending after 40 timer expirations" % desc))
